@@ -252,3 +252,45 @@ CHECKS["C19"] = {
         J("hooks", AGENT, "TestC19Hooks", {"shards": 8, "checks": 40}, {"shards": 16, "checks": 1500}, toolchain="go126"),
     ],
 }
+
+CHECKS["C06"] = {
+    "level": "exploration",
+    "engine": "E3 agent in-package",
+    "level_text": "Model-based request sequences against the real handler mux (in-process, virtual clock): endpoint x credential kind (none, garbage, aged-expired, sealed-expired, sealed-future, tampered, "
+                  "other handler instance, ordinary-user token, admin token, own token, right/wrong old password, both) x target (self, other user, other admin, non-existent, invalid names) x "
+                  "request-body shape (exact, extra fields, duplicate keys, key case, trailing garbage, missing/null/wrong-type/empty fields, null/array/truncated body), closed under sequences so that "
+                  "tokens of removed or demoted users, expiry and state changes are reached. Every response is compared with a reference authorisation table; every refusal with a byte/inode/mtime snapshot.",
+    "level_note": "Trusted: the reference table (DESIGN.md appendix B, coded in runC06), encoding/json's documented object semantics for the 'effective request' (last duplicate key wins, unknown keys ignored); "
+                  "for key-case and trailing-garbage bodies only the safety direction is asserted. Upgrades are off here (C12 covers logins that rewrite).",
+    "technique": "stateful model-based property testing (rapid) of HTTP request sequences against a reference authorisation model; snapshot-equality oracle on refusals",
+    "oracle": "status 200 <=> authorised and effective by the reference table; non-200 => store snapshot identical, no user list, no store user name that was not in the request; 200 => store = model's next state "
+              "(list + authenticate probes), list bodies = model; tokens only on correct password, naming that user and the store's admin flag",
+    "rule": "a case = a sequence of 3..25 requests. Non-trivial = a request whose credential is well-formed (valid token or an old password) but insufficient for that endpoint/target, or sufficient only "
+            "through the self-update / old-password rule; distinct = distinct (endpoint, credential kind, target class, body shape, outcome)",
+    "assumptions": ["admin tokens stay admin after demotion/removal until they expire: the statement says 'administrator at login'"],
+    "required_classes": {"all": ["request:well-formed-credential-insufficient-or-self-rule", "cred:expired-aged", "cred:other-instance", "cred:tampered", "cred:both", "shape:dup-keys", "effect:200:add", "effect:200:update", "login:token-issued"]},
+    "jobs": [
+        J("webapi", AGENT, "TestC06WebAPI", {"shards": 8, "checks": 60}, {"shards": 16, "checks": 3000}, toolchain="go126"),
+    ],
+}
+
+CHECKS["C17"] = {
+    "level": "exploration",
+    "engine": "E3 agent in-package",
+    "level_text": "Generated policies (score/entropy/time, thresholds incl. 0 and maxima, spacing variants) x generated passwords (dictionary words, keyboard walks, dates, user-name and 'whawty' variants, "
+                  "l33t, repeats, random short/long, unicode, phrases, and the target's current pre-policy password) x seven write paths (agent interface add/update/init, /api/add by an admin, "
+                  "/api/update by admin token / own token / old password) on a store pre-seeded with weak passwords; plus an enumerated table of ~130 well-formed and malformed policy configuration strings.",
+    "level_note": "Trusted: zxcvbn-go (same library as the agent, evaluated by the harness with its own comparator - the comparison, the plumbing of password/user name and the refusal paths are under test, "
+                  "not zxcvbn's scoring). CLI paths are covered by the black-box job in thorough.",
+    "technique": "property-based testing (rapid) with a reference policy evaluation (differential on the policy decision) and snapshot-equality on refusals; enumerated grammar table for policy strings",
+    "oracle": "expected verdict = zxcvbn value compared by the harness; expected-fail => refusal, store snapshot identical (bytes/inode/mtime), password does not authenticate afterwards; "
+              "expected-pass => outcome equals the model's (exists / not exists); malformed policy => NewStore error; well-formed => accepted",
+    "rule": "a case = policy + 1..10 write attempts. Non-trivial = a policy-failing password sent through a write path, or a score within +-1 of the threshold; distinct = distinct "
+            "(kind, path, side of threshold, threshold) and distinct policy strings",
+    "assumptions": [],
+    "required_classes": {"all": ["write:policy-failing-password-refused", "write:policy-satisfying-password", "edge:within-1-of-threshold", "path:api-update-oldpw", "path:api-update-own", "policy-string:valid=false"]},
+    "jobs": [
+        J("policy", AGENT, "TestC17Policy", {"shards": 8, "checks": 60}, {"shards": 16, "checks": 3000}, toolchain="go126"),
+        J("strings", AGENT, "TestC17PolicyStrings", {"shards": 1}, toolchain="go126", rapid=False),
+    ],
+}
